@@ -7,6 +7,7 @@ From Sophia.gen Require Import LabelSrc.
 From Sophia.Common Require Import Term.
 From Sophia.C08 Require Import Utf8 Utf8Proofs.
 From Sophia.C08 Require Import Source SourceProofs.
+From Sophia.C08 Require Import Messages MessagesProofs Literal LiteralProofs.
 
 Check (rio_label_accepted : forall w, matchb rio_bnode_label w = true -> matchb bnode_id_regex w = true).
 Check (rio_label_is_bnode_id : forall w, matchb rio_bnode_label w = matchb bnode_id_regex w).
@@ -66,6 +67,40 @@ Check (hist_ok_conserves : forall atomic s pre l,
          forallb infallible pre = true -> hist_ok atomic s pre FNone [] l = true ->
          exists s', events s = flat_map obs_events l ++ events s').
 
+(* round 7 -- error paths: a message that quotes the document is text; shortening it at a byte offset (String::truncate, slicing)
+   panics exactly when the offset falls inside a character; the long tokens of the error stream (a k-byte character repeated,
+   behind 0..3 letters) put EVERY cut offset inside a character for one of the shifts *)
+Check (truncate_none_iff : forall b n, truncate b n = None <-> (n <= length b)%nat /\ is_boundary b n = false).
+Check (truncate_some_prefix : forall b n b', truncate b n = Some b' -> b' = firstn n b).
+Check (inside_char_not_boundary : forall s c t j, scalar_str s = true -> scalar c = true -> (0 < j)%nat -> (j < length (utf8_1 c))%nat ->
+         is_boundary (utf8 s ++ utf8_1 c ++ t) (length (utf8 s) + j) = false).
+Check (truncate_inside_char_panics : forall s c t j, scalar_str s = true -> scalar c = true -> (0 < j)%nat -> (j < length (utf8_1 c))%nat ->
+         truncate (utf8 s ++ utf8_1 c ++ t) (length (utf8 s) + j) = None).
+Check (truncate_at_char_end_ok : forall s t, scalar_str s = true -> scalar_str t = true -> truncate (utf8 s ++ utf8 t) (length (utf8 s)) = Some (utf8 s)).
+Check (utf8_1_length_le_4 : forall c, (1 <= length (utf8_1 c) <= 4)%nat).
+Check (pads_cover_every_cut : forall s c reps n t, scalar_str s = true -> scalar c = true -> (2 <= length (utf8_1 c))%nat ->
+         (length (utf8 s) < n)%nat -> (n <= length (utf8 s) + length (utf8_1 c) * reps)%nat ->
+         exists pad, (pad < length (utf8_1 c))%nat /\ truncate (utf8 (s ++ filler pad c reps) ++ t) n = None).
+(* the checkers the harness cases use *)
+Check (family_covers_sound : forall msgs lo hi, family_covers msgs lo hi = true ->
+         forall n, (lo <= n)%nat -> (n < hi)%nat -> exists m, In m msgs /\ truncate m n = None).
+Check (msg_ok_sound : forall bytes cps lo hi nb, msg_ok bytes cps lo hi nb = true -> utf8 cps = bytes /\ scalar_str cps = true).
+Check (msg_ok_offsets : forall bytes cps lo hi nb, msg_ok bytes cps lo hi nb = true ->
+         forall n, (lo <= n)%nat -> (n < hi)%nat -> (In (N.of_nat n) nb <-> is_boundary bytes n = false)).
+
+(* round 7 -- legal but unusual terms: the literal accessors are total; a language tag implies rdf:langString, but a literal
+   explicitly typed rdf:langString ("chat"^^rdf:langString) is a typed literal WITHOUT language tag: nothing may assume the converse *)
+Check (language_implies_langString : forall l t, lit_language l = Some t -> lit_datatype l = rdf_langString).
+Check (langString_without_language : exists l, lit_datatype l = rdf_langString /\ lit_language l = None).
+Check (typed_datatype_verbatim : forall v dt, lit_datatype (LTyped v dt) = dt /\ lit_language (LTyped v dt) = None /\ lit_lexical (LTyped v dt) = v).
+Check (simple_is_typed_string : forall v, lit_datatype (LSimple v) = lit_datatype (LTyped v xsd_string) /\ lit_language (LSimple v) = lit_language (LTyped v xsd_string)).
+Check (xsd_string_not_langString : xsd_string <> rdf_langString).
+Check (view_ok_all : forall l, view_ok (lit_datatype l) (lit_language l) = true).
+Check (view_ok_jl : forall t, view_ok (jl_datatype t) (jl_language t) = true).
+Check (jl_langString_without_language : exists t, jl_datatype t = rdf_langString /\ jl_language t = None).
+Check (lit_ok_iff : forall l lex dt lang, lit_ok l lex dt lang = true <-> lex = Some (lit_lexical l) /\ dt = Some (lit_datatype l) /\ lang = lit_language l).
+Check (lit_ok_needs_datatype : forall l lex lang, lit_ok l lex None lang = false).
+
 Print Assumptions rio_label_accepted.
 Print Assumptions rio_label_is_bnode_id.
 Print Assumptions bnode_id_within_w3c.
@@ -104,3 +139,25 @@ Print Assumptions check_ops_sound.
 Print Assumptions hist_ok_conserves.
 Print Assumptions failed_parse_driven_twice.
 Print Assumptions statements_errors_and_adapters.
+Print Assumptions truncate_none_iff.
+Print Assumptions truncate_some_prefix.
+Print Assumptions inside_char_not_boundary.
+Print Assumptions truncate_inside_char_panics.
+Print Assumptions truncate_at_char_end_ok.
+Print Assumptions utf8_1_length_le_4.
+Print Assumptions pads_cover_every_cut.
+Print Assumptions family_covers_sound.
+Print Assumptions msg_ok_sound.
+Print Assumptions msg_ok_offsets.
+Print Assumptions messages_examples.
+Print Assumptions language_implies_langString.
+Print Assumptions langString_without_language.
+Print Assumptions typed_datatype_verbatim.
+Print Assumptions simple_is_typed_string.
+Print Assumptions xsd_string_not_langString.
+Print Assumptions view_ok_all.
+Print Assumptions view_ok_jl.
+Print Assumptions jl_langString_without_language.
+Print Assumptions lit_ok_iff.
+Print Assumptions lit_ok_needs_datatype.
+Print Assumptions literal_examples.
